@@ -16,8 +16,14 @@
 #include <stddef.h>
 #include <stdint.h>
 
+#if !(defined(ROOTSIM_VERIF) && defined(VERIF_B_TOTAL_EXP) && defined(VERIF_B_BLOCK_EXP))
 #define B_TOTAL_EXP 16U
 #define B_BLOCK_EXP 6U
+#else
+/* verification builds may shrink the arena so that operation histories can be enumerated exhaustively */
+#define B_TOTAL_EXP VERIF_B_TOTAL_EXP
+#define B_BLOCK_EXP VERIF_B_BLOCK_EXP
+#endif
 
 #define next_exp_of_2(i) (sizeof(i) * CHAR_BIT - intrinsics_clz(i))
 #define buddy_allocation_block_compute(req_size) next_exp_of_2(max(req_size, 1U << B_BLOCK_EXP) - 1);
